@@ -146,7 +146,10 @@ func (c *vCache) GetValidatedActionResult(ctx context.Context, hash string) (*pb
 func (c *vCache) Contains(ctx context.Context, kind cache.EntryKind, hash string, size int64) (bool, int64) {
 	c.contains++
 	if c.exists[hash] {
-		return true, c.existsSize[hash]
+		// present: with any size asked for (-1), or with exactly the size asked for
+		if size < 0 || c.existsSize[hash] == size {
+			return true, c.existsSize[hash]
+		}
 	}
 	return false, -1
 }
